@@ -16,7 +16,7 @@ for d in sorted(glob.glob(os.path.join(V, 'seeded', '*'))):
     j = json.load(open(m))
     prop = j.get('breaks_property')
     res = j.get('checks_run', {}).get(prop, '') if prop else ''
-    if not prop or 'NOT CAUGHT' in res:
+    if not prop or 'NOT CAUGHT' in res or 'NOT DECIDED' in res:
         out[name] = {'expected': 'silent / not caught', 'skipped': True}
         continue
     # the harness family named in the recorded result, e.g. "killed: c01_checked_insert_1 VF:208" -> c01_checked_insert
